@@ -11,6 +11,11 @@ pub fn verif_root() -> String {
     std::env::var("VERIF_ROOT").unwrap_or_else(|_| "/verif".to_string())
 }
 
+/// where evidence and replay files go (default: the verification root)
+pub fn out_root() -> String {
+    std::env::var("VERIF_OUT").unwrap_or_else(|_| verif_root())
+}
+
 pub fn seed() -> i64 {
     std::env::var("VERIF_SEED").ok().and_then(|s| s.parse().ok()).unwrap_or(0)
 }
@@ -104,7 +109,7 @@ impl Report {
         let mut printed_known = BTreeSet::new();
         let mut new_violations = 0;
         let mut known_hits = Vec::new();
-        let dir: PathBuf = Path::new(&verif_root()).join("replays").join(&self.prop);
+        let dir: PathBuf = Path::new(&out_root()).join("replays").join(&self.prop);
         for (i, v) in self.violations.iter().enumerate() {
             let k = known.findings.iter().find(|(p, sig, _)| *p == self.prop && *sig == v.sig);
             if let Some((_, sig, what)) = k {
@@ -149,7 +154,7 @@ impl Report {
             "wall_s": self.wall_s,
             "violations": new_violations,
         });
-        let evdir = Path::new(&verif_root()).join("evidence");
+        let evdir = Path::new(&out_root()).join("evidence");
         let _ = std::fs::create_dir_all(&evdir);
         let evp = evdir.join(format!("{}.json", self.prop));
         if let Err(e) = std::fs::write(&evp, serde_json::to_string_pretty(&ev).unwrap()) {
